@@ -1,14 +1,22 @@
-"""Prototype E1: structured flow analysis with exceptional exits + typestate.  Scratch.
+"""E1 - structured flow analysis with exceptional exits, on which pairing / typestate rules run.
 
-flow(stmts, S) -> (S_normal | None, exits)   S = frozenset of pending flags (may-pending)
-exits: list of (kind, S, node) with kind in {'return','raise','exc'}
-A client supplies transfer(stmt, S) -> S' for simple statements and call_may_raise(callnode) -> bool.
+flow.block(stmts, S) -> (S_normal | None, exits)
+  S      frozenset of pending flags (may-analysis: union at joins)
+  exits  list of (kind, S, node), kind in {'return', 'raise', 'exc', 'break', 'continue'}
+         'exc' = a call inside `node` may raise, state is the one *before* the statement's effect
+
+The client supplies
+  transfer(stmt, S) -> S'            effect of a simple statement (also of `return expr`)
+  call_may_raise(call_node) -> bool  (total builtins are filtered here already)
+  enter_loop(s) / leave_loop(s) / exit_loop(s, S_before, S_body_end, S_fix) -> S_out
+  transfer_with_enter(s, S) / transfer_with_exit(s, S)
 """
 import ast
 
 TOTAL_BUILTINS = {"len", "isinstance", "zip", "range", "enumerate", "getattr", "hasattr", "id", "type",
                   "list", "tuple", "set", "dict", "str", "repr", "bool", "print", "sorted", "any", "all",
-                  "min", "max", "abs", "int", "float", "iter", "next", "super", "callable", "format"}
+                  "min", "max", "abs", "int", "float", "iter", "next", "super", "callable", "format",
+                  "issubclass", "slice", "frozenset", "reversed"}
 
 
 def calls_in(node):
@@ -17,12 +25,44 @@ def calls_in(node):
             yield n
 
 
+def join(a, b):
+    if a is None:
+        return b
+    if b is None:
+        return a
+    return a | b
+
+
+class BaseClient:
+    def transfer(self, s, S):
+        return S
+
+    def call_may_raise(self, call):
+        return True
+
+    def enter_loop(self, s):
+        pass
+
+    def leave_loop(self, s):
+        pass
+
+    def exit_loop(self, s, S_before, S_body, S_fix):
+        return join(S_before, S_fix)
+
+    def transfer_with_enter(self, s, S):
+        return S
+
+    def transfer_with_exit(self, s, S):
+        return S
+
+
 class Flow:
     def __init__(self, client):
         self.c = client
+        self.n_stmts = 0
 
-    def may_raise(self, stmt_or_expr):
-        for c in calls_in(stmt_or_expr):
+    def may_raise(self, node):
+        for c in calls_in(node):
             f = c.func
             if isinstance(f, ast.Name) and f.id in TOTAL_BUILTINS:
                 continue
@@ -41,14 +81,18 @@ class Flow:
 
     def stmt(self, s, S):
         c = self.c
-        if isinstance(s, (ast.Return,)):
+        self.n_stmts += 1
+        if isinstance(s, ast.Return):
             ex = []
             if s.value is not None and self.may_raise(s.value):
                 ex.append(("exc", S, s))
-            S2 = c.transfer(s, S)
-            return None, ex + [("return", S2, s)]
+            return None, ex + [("return", c.transfer(s, S), s)]
         if isinstance(s, ast.Raise):
             return None, [("raise", S, s)]
+        if isinstance(s, ast.Break):
+            return None, [("break", S, s)]
+        if isinstance(s, ast.Continue):
+            return None, [("continue", S, s)]
         if isinstance(s, ast.If):
             ex = [("exc", S, s)] if self.may_raise(s.test) else []
             S1, e1 = self.block(s.body, S)
@@ -58,35 +102,40 @@ class Flow:
             head = s.iter if isinstance(s, ast.For) else s.test
             ex = [("exc", S, s)] if self.may_raise(head) else []
             c.enter_loop(s)
-            # iterate to fixpoint (flags only grow/shrink within a small lattice)
-            Sin = S
-            allex = []
-            for _ in range(4):
+            Sin, Sb, body_ex, brk = S, None, [], None
+            for _ in range(6):
                 Sb, eb = self.block(s.body, Sin)
-                allex = eb
+                brk, body_ex = None, []
+                for k, St, n in eb:
+                    if k == "continue":
+                        Sb = join(Sb, St)
+                    elif k == "break":
+                        brk = join(brk, St)
+                    else:
+                        body_ex.append((k, St, n))
                 Snew = join(Sin, Sb)
                 if Snew == Sin:
                     break
                 Sin = Snew
             Sout = c.exit_loop(s, S, Sb if Sb is not None else Sin, Sin)
             c.leave_loop(s)
-            # dedupe exits
             So, eo = self.block(s.orelse, Sout) if s.orelse else (Sout, [])
-            return So, ex + allex + eo
+            So = join(So, brk)
+            return So, ex + body_ex + eo
         if isinstance(s, ast.Try):
             Sb, eb = self.block(s.body, S)
+            catch_all = any(h.type is None or (isinstance(h.type, ast.Name) and h.type.id in ("Exception", "BaseException"))
+                            for h in s.handlers)
             caught, passed = [], []
             for kind, St, node in eb:
                 if kind in ("raise", "exc") and s.handlers:
                     caught.append(St)
-                    # specific handlers may not catch everything -> also propagate unless bare/Exception
-                    if not any(h.type is None or (isinstance(h.type, ast.Name) and h.type.id in ("Exception", "BaseException")) for h in s.handlers):
+                    if not catch_all:
                         passed.append((kind, St, node))
                 else:
                     passed.append((kind, St, node))
-            outs = [Sb]
-            hex_ = []
-            if s.handlers and (caught or True):
+            outs, hex_ = [Sb], []
+            if s.handlers:
                 Sh_in = None
                 for St in caught:
                     Sh_in = join(Sh_in, St)
@@ -104,7 +153,6 @@ class Flow:
                 Sn = join(Sn, o)
             allex = passed + hex_
             if s.finalbody:
-                # every exit and the normal continuation pass through finally
                 newex = []
                 for kind, St, node in allex:
                     Sf, ef = self.block(s.finalbody, St)
@@ -123,26 +171,24 @@ class Flow:
                     ex.append(("exc", S, s))
             S = c.transfer_with_enter(s, S)
             Sb, eb = self.block(s.body, S)
-            # __exit__ runs on all exits
             eb2 = [(k, c.transfer_with_exit(s, St), n) for k, St, n in eb]
             return (c.transfer_with_exit(s, Sb) if Sb is not None else None), ex + eb2
-        if isinstance(s, (ast.FunctionDef, ast.ClassDef, ast.Import, ast.ImportFrom, ast.Pass, ast.Global)):
+        if isinstance(s, (ast.FunctionDef, ast.ClassDef, ast.Import, ast.ImportFrom, ast.Pass, ast.Global, ast.Nonlocal)):
             return S, []
-        if isinstance(s, (ast.Break, ast.Continue)):
-            return S, []      # approximated
-        # simple statement: may raise before its effect
+        # simple statement: may raise before its effect takes place
         ex = [("exc", S, s)] if self.may_raise(s) else []
-        # yield inside a generator-based context manager: body of the with-statement may raise here
         for n in ast.walk(s):
             if isinstance(n, (ast.Yield, ast.YieldFrom)):
+                # generator-based context manager: the body of the caller's `with` may raise here
                 ex.append(("exc", S, s))
-        # callee summaries may change state even when raising is impossible
         return c.transfer(s, S), ex
 
 
-def join(a, b):
-    if a is None:
-        return b
-    if b is None:
-        return a
-    return a | b
+def function_exits(fn, client, S0=frozenset()):
+    """run the flow over a function body; loop-control exits cannot escape a function"""
+    fl = Flow(client)
+    S, exits = fl.block(fn.body, S0)
+    exits = [(k, St, n) for k, St, n in exits if k not in ("break", "continue")]
+    if S is not None:
+        exits.append(("fallthrough", S, fn))
+    return exits, fl.n_stmts
